@@ -378,15 +378,18 @@ class CxxParser:
     # Preprocessor directives
     #
 
-    _preprocessor_compress_re = re.compile(r"^#[\t ]+")
-    _preprocessor_split_re = re.compile(r"[\t ]+")
+    # the name is <...> or "..." (anything else, e.g. a macro, is kept as written);
+    # layout or a comment between the name and the end of the line is not part of it
+    _preprocessor_include_re = re.compile(
+        r'^#[\t ]*include[\t ]*(<[^>]*>|"[^"]*"|.*)'
+    )
 
     def _process_include_directive(self, tok: LexToken, doxygen: typing.Optional[str]):
-        value = self._preprocessor_compress_re.sub("#", tok.value)
-        svalue = self._preprocessor_split_re.split(value, 1)
-        if len(svalue) == 2:
+        m = self._preprocessor_include_re.match(tok.value)
+        filename = m.group(1).rstrip() if m else ""
+        if filename:
             self.state.location = tok.location
-            self.visitor.on_include(self.state, svalue[1])
+            self.visitor.on_include(self.state, filename)
         else:
             raise CxxParseError("incomplete #include directive", tok)
 
